@@ -28,17 +28,17 @@ type upFault struct {
 }
 
 type rawAttempt struct {
-	ID        string
-	N         int
-	Fault     upFault
-	FaultHit  bool
-	RawLen    int
-	HeadLen   int
-	Body      []byte // decoded (de-chunked) upload body as far as received
-	Complete  bool   // terminating chunk seen
-	BadFrame  string
-	Acked     int // status the sink answered (0 = none)
-	AckedAt   time.Duration
+	ID       string
+	N        int
+	Fault    upFault
+	FaultHit bool
+	RawLen   int
+	HeadLen  int
+	Body     []byte // decoded (de-chunked) upload body as far as received
+	Complete bool   // terminating chunk seen
+	BadFrame string
+	Acked    int // status the sink answered (0 = none)
+	AckedAt  time.Duration
 }
 
 type rawProxy struct {
